@@ -25,6 +25,7 @@ class Aio:
         self.task_counter = 0
         self.run_callbacks_inline = False
         self.sleep_hook: Optional[Callable] = None
+        self.wait_policy: Optional[Callable] = None
 
     def yield_point(self, label: str):
         it = self.it
@@ -355,6 +356,16 @@ def install(it) -> Aio:
         return SimpleAwaitable(aio, 'asyncio.gather', run)
     reg('asyncio.gather', gather)
 
+    def wait(it2, a, k):
+        items = list(it2.iterate(a[0]))
+
+        def run(it3):
+            if aio.wait_policy is None:
+                raise Unsupported('asyncio.wait without a policy (harness must say which awaitables complete)')
+            done, pending = aio.wait_policy(it3, items, k)
+            return (set(done), set(pending))
+        return SimpleAwaitable(aio, 'asyncio.wait', run)
+    reg('asyncio.wait', wait)
     reg('asyncio.Lock', lambda it2, a, k: LockVal(aio))
     reg('asyncio.Event', lambda it2, a, k: EventVal(aio))
     reg('asyncio.Future', lambda it2, a, k: TaskVal(aio, None, '', kind='future'))
